@@ -15,9 +15,19 @@ func guardFor(prop string, p prog.Program) prog.Guard {
 	}
 	switch prop {
 	case "C01", "C02", "C03":
-		return prog.Chain(prog.GuardF2)
+		return prog.Chain(prog.GuardF2, gcGuard(prop, p))
 	case "C15":
-		return prog.Chain(prog.GuardF2, prog.GuardF6, prog.GuardF10F11(p))
+		return prog.Chain(prog.GuardF2, prog.GuardF6, prog.GuardF10F11(p), gcGuard(prop, p))
 	}
 	return nil
+}
+
+// gcGuard: the GC-related exclusion F48. C03 runs every program with GC on and
+// off and must exclude the same steps in both, so it is always on there;
+// elsewhere the GC-off stratum is not restricted.
+func gcGuard(prop string, p prog.Program) prog.Guard {
+	if prop == "C03" {
+		return prog.GuardF48
+	}
+	return prog.GCGuard(p, prog.GuardF48)
 }
